@@ -1042,3 +1042,48 @@ Definition resolve (base ctl : str) : option str :=
 
 Definition parsed (s : str) : url :=
   match parse s with POk u => u | _ => mkUrl [] None [] [] [] false [] end.
+
+(* ---------- the description handed to a client and the SETUPs that follow (back channels) ---------- *)
+Lemma describe_from_spec bc req : forall i k j ctl,
+  nnth k (describe_from i bc req) = Some (j, ctl) ->
+  ctl = control_of j /\ i <= j /\ j < i + nlen bc /\
+  exists b, nnth (j - i) bc = Some b /\ (negb b || req) = true.
+Proof.
+  induction bc as [|b t IH]; intros i k j ctl H; cbn [describe_from] in H.
+  - destruct k; discriminate.
+  - cbn [nlen].
+    assert (Tail : forall k', nnth k' (describe_from (i + 1) t req) = Some (j, ctl) ->
+              ctl = control_of j /\ i <= j /\ j < i + N.succ (nlen t) /\
+              exists b0, nnth (j - i) (b :: t) = Some b0 /\ (negb b0 || req) = true).
+    { intros k' H'. apply IH in H'. destruct H' as (-> & H1 & H2 & b' & H3 & H4).
+      repeat split; try lia. exists b'. split; [|exact H4].
+      replace (j - i) with ((j - (i + 1)) + 1) by lia. rewrite nnth_tail. exact H3. }
+    destruct (negb b || req) eqn:Eb; cbn [app] in H.
+    + cbn [nnth] in H. destruct (N.eqb_spec k 0) as [->|Hk].
+      * inversion H; subst. repeat split; try lia.
+        exists b. replace (j - j) with 0 by lia. split; [reflexivity|exact Eb].
+      * eapply Tail. exact H.
+    + eapply Tail. exact H.
+Qed.
+
+(* every media of the description carries the control of ITS OWN index in the stream's list, it is a media the
+   client may see, and findMediaByTrackID on that number finds exactly it - whatever back channels were left out *)
+Theorem described_media_is_reached bc req k j ctl :
+  nlen bc < 2147483648 -> nnth k (describe bc req) = Some (j, ctl) ->
+  ctl = control_of j /\ j < nlen bc /\
+  (exists b, nnth j bc = Some b /\ (negb b || req) = true) /\
+  find_media_by_track_id (nlen bc) (dec j) = MFound j.
+Proof.
+  intros Hn H. unfold describe in H. apply describe_from_spec in H. destruct H as (-> & _ & H2 & b & H3 & H4).
+  rewrite N.sub_0_r in H3. repeat split; try lia; [exists b; auto|apply find_by_track_id_dec; lia].
+Qed.
+
+(* nothing that should be described is left out, nothing is described twice: the described indices are exactly the
+   visible ones, in order *)
+Fixpoint visible_from (i : N) (bc : list bool) (req : bool) : list N :=
+  match bc with [] => [] | b :: t => (if negb b || req then [i] else []) ++ visible_from (i + 1) t req end.
+Lemma describe_indices bc req : forall i, map fst (describe_from i bc req) = visible_from i bc req.
+Proof.
+  induction bc as [|b t IH]; intros i; cbn [describe_from visible_from]; [reflexivity|].
+  rewrite map_app, IH. destruct (negb b || req); reflexivity.
+Qed.
